@@ -79,6 +79,10 @@ class Abstractor:
             raise NotAbstractable(str(e))
         d = e.decl()
         kind = d.kind()
+        if kind == z3.Z3_OP_SEQ_IN_RE:
+            # membership in a fixed regular language: an uninterpreted predicate indexed by the language text
+            f = self.fun("inre_" + str(abs(hash(e.children()[1].sexpr())) % 10**10), U, z3.BoolSort())
+            return f(self.tr(e.children()[0]))
         args = [self.tr(a) for a in e.children()]
         srt = e.sort()
         if e.num_args() == 0:
